@@ -173,3 +173,112 @@ mod c31 {
         println!("VERIF-B unit=ffi_utils test=c31_registry_matches_model_all_short_sequences evaluations={evals} nontrivial={nontrivial} exhaustive=true domain=every sequence of 1..={max_len} operations over {{track,validate,untrack}} x 4 addresses (NULL + 3) x 2 types and free x 4 addresses, from the empty registry");
     }
 }
+
+
+// ---------------------------------------------------------------- C31 at the exported C API (Engine B)
+// Handle lifecycle through the real extern "C" functions: every handle a constructor returns is tracked; after its
+// release function returned, neither the handle nor any sub-handle (the strings of a string array) is tracked any more,
+// a further c2pa_free of it reports an error (-1 with a retrievable message) instead of freeing again, and
+// c2pa_free(NULL) is 0.
+#[cfg(test)]
+mod c31_api {
+    use super::*;
+    #[allow(deprecated)]
+    use crate::c_api::*;
+    use std::os::raw::{c_char, c_void};
+
+    fn tracked(p: usize) -> bool {
+        get_registry().tracked.lock().map(|t| t.contains_key(&p)).unwrap_or(false)
+    }
+
+    #[test]
+    #[allow(deprecated)]
+    fn c31_released_handles_are_untracked_and_second_free_is_an_error() {
+        let mut evals = 0usize;
+        let mut nontrivial = 0usize;
+        let mut counts: std::collections::BTreeMap<String, usize> = std::collections::BTreeMap::new();
+        let mut bad = |k: &str, input: String, counts: &mut std::collections::BTreeMap<String, usize>| {
+            let c = counts.entry(k.to_string()).or_insert(0);
+            *c += 1;
+            if *c <= 3 {
+                println!("VERIF-B-VIOLATION key={k} input={input}");
+            }
+        };
+        unsafe {
+            assert_eq!(c2pa_free(std::ptr::null()), 0);
+            // (constructor name, handle, sub-handles, release)
+            type Release = Box<dyn Fn(usize, usize)>;
+            let mut cases: Vec<(&str, usize, Vec<usize>, usize, &str, Release)> = Vec::new();
+            let free_generic: fn() -> Release = || Box::new(|p, _| { c2pa_free(p as *const c_void); });
+            let v = c2pa_version();
+            cases.push(("c2pa_version", v as usize, vec![], 0, "c2pa_free", free_generic()));
+            let v2 = c2pa_version();
+            cases.push(("c2pa_version", v2 as usize, vec![], 0, "c2pa_string_free", Box::new(|p, _| c2pa_string_free(p as *mut c_char))));
+            let v3 = c2pa_version();
+            cases.push(("c2pa_version", v3 as usize, vec![], 0, "c2pa_release_string", Box::new(|p, _| c2pa_release_string(p as *mut c_char))));
+            let s = c2pa_settings_new();
+            cases.push(("c2pa_settings_new", s as usize, vec![], 0, "c2pa_free", free_generic()));
+            let cb = c2pa_context_builder_new();
+            cases.push(("c2pa_context_builder_new", cb as usize, vec![], 0, "c2pa_free", free_generic()));
+            let cx = c2pa_context_new();
+            cases.push(("c2pa_context_new", cx as usize, vec![], 0, "c2pa_free", free_generic()));
+            let r = c2pa_reader_new();
+            cases.push(("c2pa_reader_new", r as usize, vec![], 0, "c2pa_reader_free", Box::new(|p, _| c2pa_reader_free(p as *mut _))));
+            let r2 = c2pa_reader_new();
+            cases.push(("c2pa_reader_new", r2 as usize, vec![], 0, "c2pa_free", free_generic()));
+            let js = std::ffi::CString::new("{}").unwrap();
+            let b = c2pa_builder_from_json(js.as_ptr());
+            cases.push(("c2pa_builder_from_json", b as usize, vec![], 0, "c2pa_builder_free", Box::new(|p, _| c2pa_builder_free(p as *mut _))));
+            for which in 0..2 {
+                let mut count: usize = 0;
+                let arr = if which == 0 { c2pa_reader_supported_mime_types(&mut count) } else { c2pa_builder_supported_mime_types(&mut count) };
+                let elems: Vec<usize> = (0..count).map(|i| *arr.add(i) as usize).collect();
+                cases.push((if which == 0 { "c2pa_reader_supported_mime_types" } else { "c2pa_builder_supported_mime_types" }, arr as usize, elems, count, "c2pa_free_string_array",
+                            Box::new(|p, n| c2pa_free_string_array(p as *const *const c_char, n))));
+            }
+            for (ctor, handle, subs, n, rel_name, release) in cases {
+                if handle == 0 {
+                    continue;
+                }
+                evals += 1;
+                nontrivial += 1;
+                let is_array = rel_name == "c2pa_free_string_array";
+                // before release: the handle (or, for an array, every element) is tracked
+                let live: Vec<usize> = if is_array { subs.clone() } else { vec![handle] };
+                if live.iter().any(|p| !tracked(*p)) {
+                    bad("c_api.live_handle_not_tracked", format!("{ctor}"), &mut counts);
+                }
+                release(handle, n);
+                let still = live.iter().filter(|p| tracked(**p)).count();
+                if still > 0 {
+                    bad("c_api.released_handle_still_tracked", format!("{ctor} released with {rel_name}: {still} of {} handles are still registered", live.len()), &mut counts);
+                    // make the registry consistent again WITHOUT running the cleanup (the memory is gone)
+                    if let Ok(mut t) = get_registry().tracked.lock() {
+                        for p in &live {
+                            if let Some(e) = t.remove(p) {
+                                std::mem::forget(e);
+                            }
+                        }
+                    }
+                    continue;
+                }
+                // a second free of a released handle is an error with a retrievable message, not a second free
+                for p in live.iter().take(3) {
+                    evals += 1;
+                    let rc = c2pa_free(*p as *const c_void);
+                    let msg = c2pa_error();
+                    let text = if msg.is_null() { String::new() } else { std::ffi::CStr::from_ptr(msg).to_string_lossy().to_string() };
+                    if !msg.is_null() {
+                        c2pa_free(msg as *const c_void);
+                    }
+                    if rc != -1 || text.is_empty() {
+                        bad("c_api.second_free_not_reported", format!("{ctor}: second free returned {rc}, message {text:?}"), &mut counts);
+                    }
+                }
+            }
+        }
+        println!("VERIF-B-SAMPLE c2pa_reader_supported_mime_types -> c2pa_free_string_array -> c2pa_free(element) must be -1 / UntrackedPointer");
+        println!("VERIF-B-SAMPLE violation classes this run: {:?}", counts);
+        println!("VERIF-B unit=ffi_utils test=c31_released_handles_are_untracked_and_second_free_is_an_error evaluations={evals} nontrivial={nontrivial} exhaustive=true domain=12 constructor / release pairs of the exported C API (strings x 3 release functions, settings, context builder, context, reader x 2, builder, both mime-type arrays with all their elements), each followed by a second free");
+    }
+}
